@@ -233,15 +233,15 @@ p_ini_file_parse (PIniFile	*file,
 		/* UTF-8, UTF-16 and UTF-32 BOM detection */
 		if ((puchar) src_line[0] == 0xEF && (puchar) src_line[1] == 0xBB && (puchar) src_line[2] == 0xBF)
 			bom_shift = 3;
-		else if (((puchar) src_line[0] == 0xFE && (puchar) src_line[1] == 0xFF) ||
-			 ((puchar) src_line[0] == 0xFF && (puchar) src_line[1] == 0xFE))
-			bom_shift = 2;
 		else if ((puchar) src_line[0] == 0x00 && (puchar) src_line[1] == 0x00 &&
 			 (puchar) src_line[2] == 0xFE && (puchar) src_line[3] == 0xFF)
 			bom_shift = 4;
 		else if ((puchar) src_line[0] == 0xFF && (puchar) src_line[1] == 0xFE &&
 			 (puchar) src_line[2] == 0x00 && (puchar) src_line[3] == 0x00)
 			bom_shift = 4;
+		else if (((puchar) src_line[0] == 0xFE && (puchar) src_line[1] == 0xFF) ||
+			 ((puchar) src_line[0] == 0xFF && (puchar) src_line[1] == 0xFE))
+			bom_shift = 2;
 		else
 			bom_shift = 0;
 
